@@ -391,3 +391,59 @@ def _bool_op(conj, a, b):
     if lb is False:
         return a
     return ("bin", "Or", a, b)
+
+
+# ------------------------------------------------------------------ loop nests
+def replace(t, mapping):
+    """replace whole sub-terms of t (keys of mapping) by their images"""
+    if not isinstance(t, tuple):
+        return t
+    if t in mapping:
+        return mapping[t]
+    return tuple(replace(x, mapping) for x in t)
+
+
+def strip_acc(t):
+    """drop the ('acc', T) markers (value at a loop head) everywhere"""
+    if not isinstance(t, tuple):
+        return t
+    if len(t) == 2 and t[0] == "acc":
+        return strip_acc(t[1])
+    return tuple(strip_acc(x) for x in t)
+
+
+def _app(f, arg):
+    if isinstance(f, tuple) and f and f[0] == "fn":
+        from .flow import short
+        return ("call", short(f[1]), (arg,))
+    return _apply(f, arg)
+
+
+PASS_THROUGH = {"Iterator::inspect", "Iterator::peekable", "Iterator::by_ref", "Iterator::fuse"}
+
+
+def _iter(it):
+    """(nest, element): the loops that enumerate iterator term `it`, outermost first, and the element it yields"""
+    if isinstance(it, tuple) and it and it[0] == "call":
+        if it[1] == "Iterator::map" and len(it[2]) == 2:
+            n, e = _iter(it[2][0])
+            return n, _app(it[2][1], e)
+        if it[1] == "Iterator::flat_map" and len(it[2]) == 2:
+            n, e = _iter(it[2][0])
+            n2, e2 = _iter(_app(it[2][1], e))
+            return n + n2, e2
+        if it[1] in PASS_THROUGH and it[2]:
+            return _iter(it[2][0])
+    return [it], ("each", it)
+
+
+def loop_nest(loops):
+    """canonical form of a stack of loops (sym.Eval.loops): `for x in L.map(f).flat_map(g)` and `for a in L { for x in g(f(a)) }` are the
+    same nest.  Returns (nest, mapping) where mapping sends each raw ('each', iterable) term to the canonical element term."""
+    nest, mapping = [], {}
+    for raw in loops:
+        it = replace(raw, mapping)
+        n, e = _iter(it)
+        nest += n
+        mapping[("each", raw)] = e
+    return nest, mapping
